@@ -437,6 +437,62 @@ pub fn call(wb: &mut Wb, c: &str) -> String {
                 _ => "unsupported".to_string(),
             }
         }
+        // "cellsmix <sheet>": the xlsb cells reader driven alternately — k times next_formula,
+        // then next_cell to the end, for k = 1, 2, 3 — must continue with the cells that follow the
+        // k-th formula cell in the stream (what a pure next_cell run yields behind it)
+        "cellsmix" => {
+            let n = name(1);
+            match wb {
+                Wb::Xlsb(x) => {
+                    let mut all: Vec<((u32, u32), String)> = Vec::new();
+                    match x.worksheet_cells_reader(&n) {
+                        Ok(mut r) => loop {
+                            match r.next_cell() {
+                                Ok(Some(c)) => all.push((c.get_position(), dataref_str(c.get_value()))),
+                                Ok(None) => break,
+                                Err(_) => return "err".to_string(),
+                            }
+                        },
+                        Err(_) => return "err".to_string(),
+                    }
+                    for k in 1..=3usize {
+                        let mut r = match x.worksheet_cells_reader(&n) {
+                            Ok(r) => r,
+                            Err(_) => return "err".to_string(),
+                        };
+                        let mut last = None;
+                        for _ in 0..k {
+                            match r.next_formula() {
+                                Ok(Some(c)) => last = Some(c.get_position()),
+                                Ok(None) => {
+                                    last = None;
+                                    break;
+                                }
+                                Err(_) => return "err".to_string(),
+                            }
+                        }
+                        let Some(pos) = last else { break };
+                        let Some(at) = all.iter().position(|(p, _)| *p == pos) else {
+                            // a formula cell without a cached value the cell reader returns: nothing to compare
+                            continue;
+                        };
+                        let mut got: Vec<((u32, u32), String)> = Vec::new();
+                        loop {
+                            match r.next_cell() {
+                                Ok(Some(c)) => got.push((c.get_position(), dataref_str(c.get_value()))),
+                                Ok(None) => break,
+                                Err(_) => return format!("MIXMISMATCH:k={}:error after next_formula", k),
+                            }
+                        }
+                        if got[..] != all[at + 1..] {
+                            return format!("MIXMISMATCH:k={}:{} cells instead of {}", k, got.len(), all.len() - at - 1);
+                        }
+                    }
+                    "ok".to_string()
+                }
+                _ => "unsupported".to_string(),
+            }
+        }
         "vba" => {
             let r = each!(wb, x => x.vba_project().map(|r| r.map(|v| v.into_owned()).map_err(|_| ())));
             match r {
